@@ -19,13 +19,13 @@ class DefUse:
             for s in blk.stmts:
                 if s.kind == "=" and not s.place.proj:
                     self.defs.setdefault(s.place.local, []).append(("stmt", bi, s))
-                elif s.kind in ("=", "setdisc"):
+                elif s.kind in ("=", "setdisc") and s.place.proj and s.place.proj[0] != "*":
                     self.defs.setdefault(s.place.local, []).append(("partial", bi, s))
             t = blk.term
             if t.kind == "call" and t.dest is not None:
                 if not t.dest.proj:
                     self.defs.setdefault(t.dest.local, []).append(("call", bi, t))
-                else:
+                elif t.dest.proj[0] != "*":
                     self.defs.setdefault(t.dest.local, []).append(("partial", bi, t))
 
     def single(self, local):
@@ -86,7 +86,12 @@ class DefUse:
                 return ("cast", rv.ty, inner)
             return inner
         if k == "agg":
-            nm = rv.agg[0] if rv.agg[0] != "adt" else "%s::%s" % (rv.agg[1], rv.agg[2])
+            if rv.agg[0] == "adt":
+                nm = "%s::%s" % (rv.agg[1], rv.agg[2])
+            elif rv.agg[0] == "closure":
+                nm = "closure:" + rv.agg[1]
+            else:
+                nm = rv.agg[0]
             return ("agg", nm, [self.origin(o, depth + 1) for o in rv.ops])
         if k == "disc":
             return ("disc", self.origin_place(rv.place, depth + 1))
@@ -95,6 +100,12 @@ class DefUse:
     def origin(self, op, depth=0):
         if op.kind == "const":
             i = op.info
+            if "promoted" in i and self.body.promoted_index is None and depth < 20:
+                try:
+                    pb = self.body.fn.promoted[i["promoted"]]
+                    return DefUse(pb).origin_local(0, depth + 1)
+                except (IndexError, AttributeError):
+                    return ("const", None)
             if "v" in i:
                 return ("const", i["v"])
             if "fn" in i:
